@@ -11,7 +11,7 @@ enum MOp {
     Read { ret: u32 },
     Write { arg: u32 },
     Swap { arg: u32, ret: u32 },
-    Cas { exp_addr: usize, arg: u32, ret: u32 },
+    Cas { exp_addr: usize, exp_uid: Option<u32>, arg: u32, ret: u32 },
 }
 
 struct HOp {
@@ -90,8 +90,8 @@ fn linearizable(ops: &[HOp], calls: &[Call], init: u32, weak: bool) -> bool {
                 }
                 MOp::Write { arg } => Some(*arg),
                 MOp::Swap { arg, .. } if ops[i].optional => Some(*arg),
-                MOp::Cas { exp_addr, arg, .. } if ops[i].optional => {
-                    if addr_of(st) == *exp_addr {
+                MOp::Cas { exp_addr, exp_uid, arg, .. } if ops[i].optional => {
+                    if exp_uid.map(|u| u == st).unwrap_or_else(|| addr_of(st) == *exp_addr) {
                         Some(*arg)
                     } else {
                         Some(st)
@@ -104,10 +104,10 @@ fn linearizable(ops: &[HOp], calls: &[Call], init: u32, weak: bool) -> bool {
                         None
                     }
                 }
-                MOp::Cas { exp_addr, arg, ret } => {
+                MOp::Cas { exp_addr, exp_uid, arg, ret } => {
                     if *ret != st {
                         None
-                    } else if addr_of(st) == *exp_addr {
+                    } else if exp_uid.map(|u| u == st).unwrap_or_else(|| addr_of(st) == *exp_addr) {
                         Some(*arg)
                     } else {
                         Some(st)
@@ -219,6 +219,7 @@ pub fn check_histories(w: &World, weak: bool, stats: &mut HistStats) -> Option<(
                     CallKind::Swap | CallKind::Rcu => MOp::Swap { arg: c.arg, ret: c.ret },
                     CallKind::Cas => MOp::Cas {
                         exp_addr: c.exp_addr,
+                        exp_uid: c.exp_uid,
                         arg: c.arg,
                         ret: c.ret,
                     },
